@@ -896,10 +896,10 @@ func runBigGraph(c bigGraphCase, r *pb.Rec) error {
 }
 
 func init() {
-	pb.Register("knapsack", pb.Options{Base: 3000, Required: []string{"tie-breaker replaced", "item heavier than the limit", "empty input"},
+	pb.Register("knapsack", pb.Options{Twins: 3, Base: 3000, Required: []string{"tie-breaker replaced", "item heavier than the limit", "empty input"},
 		Rule: "items with unique ids, n <= 12 (thorough 14), weights 0..6, values 1..6 with many ties, limits 0..sum+2, optional deterministic tie-breakers; every case executed 5 times (the code iterates Go maps); oracle: brute force over all 2^n subsets (each id at most once, weight <= limit, value == optimum); non-trivial = n >= 4 with equal values/weights"},
 		genKnap, runKnap)
-	pb.Register("dp_solvers", pb.Options{Base: 3000, Required: []string{"tie-breaker replaced", "overflow possible", "smallest overshoot returned", "empty input"},
+	pb.Register("dp_solvers", pb.Options{Twins: 3, Base: 3000, Required: []string{"tie-breaker replaced", "overflow possible", "smallest overshoot returned", "empty input"},
 		Rule: "FindDpSolvers over items with values 1..6, max 0..sum+2, with/without overflow and tie-breakers, 5 executions per case; oracle: brute force subset sums (every key sums exactly with distinct ids, every attainable total <= max is a key, smallest overshoot is a key when allowed, no key > max otherwise), Best(m) = largest attainable <= m, BestAllowMinOverflow = exact or smallest overshoot; non-trivial = n >= 4 with equal values"},
 		genDp, runDp)
 	pb.Register("knapsack_large", pb.Options{Base: 600, Required: []string{"limit >= 256", "selection of >= 16 items", "tie-breaker replaced"},
@@ -911,7 +911,7 @@ func init() {
 	pb.Register("maximal_cliques_large", pb.Options{Base: 400, Required: []string{"more than 32 vertices", "a maximal clique of >= 17 vertices", ">= 200 maximal cliques"},
 		Rule: "undirected graphs on 11..64 vertices (31..34 and 63/64 sampled): random background edges of density 0..0.2 plus up to 5 planted cliques of 2..12 vertices and occasionally one of 16..18, edges added through three entry-point mixes; oracle: validity predicate on every returned set (vertices of the graph, a clique, not extendable, returned once) and completeness against an independent bitset Bron-Kerbosch (cases with more than 20000 maximal cliques are skipped and counted); non-trivial = more than 16 vertices and more than n/2 maximal cliques"},
 		genBigGraph, runBigGraph)
-	pb.Register("maximal_cliques", pb.Options{Base: 3000, Required: []string{"edgeless graph", "complete graph / single clique", "queried while being built"},
+	pb.Register("maximal_cliques", pb.Options{Twins: 3, Base: 3000, Required: []string{"edgeless graph", "complete graph / single clique", "queried while being built"},
 		Rule: "undirected simple graphs with 1..10 vertices, each edge drawn with density 0.1..0.9, built with AddNode/AddUndirectedEdge in a drawn order, half of the cases also query GetMaximalCliques at drawn points while the graph is still being built, 5 executions per case; oracle: brute-force set of maximal cliques, each returned exactly once and nothing else; non-trivial = >= 2 overlapping maximal cliques"},
 		genGraph, runGraph)
 }
